@@ -154,5 +154,5 @@ def _worker(ctx, arg):
 
 
 def run(ctx):
-    per = 60 if ctx.tier == "quick" else 800
+    per = 250 if ctx.tier == "quick" else 2500
     ctx.parallel(_worker, [(k, per) for k in range(core.NPROC)])
